@@ -1,4 +1,5 @@
 import Proofs.ScsvFaults
+import Proofs.ScsvTerse
 /-! # C16 — witnesses
 
 * `E₀` / `floatSpec_E₀`: the assumed spec of the CPython externals (`FloatSpec`) is satisfiable
@@ -209,5 +210,29 @@ example : resolvePlain "NaN".toList = .str "NaN".toList := by decide  -- not a Y
 example : resolvePlain "y".toList = .str "y".toList := by decide      -- PyYAML does not resolve y/n
 /-- after the fix every scalar is single-quoted and read back verbatim -/
 example : parseQuotedValue (yamlQuoted "it's: #1 ''".toList) = .ok "it's: #1 ''".toList := by decide
+
+/-! ## the terse notation -/
+
+/-- the docstring example of `parse_scsv_schema` (its unit `%` made the written file unreadable before 78c9fb7) -/
+example : parseTerse "d,m-:colA(s)colB(s:N/A:...)colC()colD(i:999999)colE(f:NaN:%)".toList
+    = .ok ⟨some ",".toList, some "-".toList, some [
+        ⟨some "colA".toList, some "string".toList, none, some (.str [])⟩,
+        ⟨some "colB".toList, some "string".toList, some "...".toList, some (.str "N/A".toList)⟩,
+        ⟨some "colC".toList, some "string".toList, none, some (.str [])⟩,
+        ⟨some "colD".toList, some "integer".toList, none, some (.str "999999".toList)⟩,
+        ⟨some "colE".toList, some "float".toList, some "%".toList, some (.str "NaN".toList)⟩]⟩ := by decide
+
+/-- hypotheses of `terse_denotation` are satisfiable -/
+example : (⟨"colB".toList, "s".toList, some "N/A".toList, some "...".toList⟩ : TCol).OK :=
+  ⟨Or.inr (by decide), by decide, by decide,
+   fun f hf => by cases hf; exact ⟨by decide, by decide⟩,
+   fun u hu => by cases hu; exact ⟨by decide, by decide⟩, fun _ => rfl⟩
+
+example : parseTerse "x,m-:a()".toList = .error .scsv := by decide
+example : parseTerse "d,m:a()".toList = .error .scsv := by decide       -- empty missing marker: colon too early
+example : parseTerse "dmm-:a()".toList = .error .scsv := by decide      -- delimiter `m`
+example : parseTerse "d,m-:a(x)".toList = .error .scsv := by decide     -- unknown type code
+example : parseTerse "d,m-:a(s)b".toList = .ok ⟨some ",".toList, some "-".toList,
+    some [⟨some "a".toList, some "string".toList, none, some (.str [])⟩]⟩ := by decide  -- trailing text is dropped
 
 end Scsv
